@@ -87,7 +87,7 @@ def run(chk):
     try:
         data, secs = vlib.run_harness("remrun15", chk.tmp("p2.json"), timeout=900 if quick else 2400, conf=conf, seed=chk.seed,
                                       n=60 if quick else 5000, max=40 if quick else 120,
-                                      hammers=2 if quick else 10, wires=8 if quick else 300, hammer=6000 if quick else 20000,
+                                      hammers=2 if quick else 10, wires=8 if quick else 300, inwires=4 if quick else 200, hammer=6000 if quick else 20000,
                                       nfail=48 if quick else 200, lookups=200000 if quick else 3000000)
     except subprocess.TimeoutExpired:
         chk.coverage.update({"evaluations": 1, "distinct_nontrivial": 2, "trusted_base": TRUSTED})
